@@ -38,9 +38,6 @@ pub struct WireCase {
     pub seg_name: String,
     pub pending: Vec<u8>,
     pub flavour: Flavour,
-    /// drive with a TRACE-level tracing subscriber installed
-    #[serde(default)]
-    pub tracing: bool,
     /// one transient read error (Interrupted / WouldBlock / TimedOut) at this read call
     #[serde(default)]
     pub error_at: Option<(usize, String)>,
@@ -92,10 +89,6 @@ fn first_line_end(stream: &[u8]) -> Option<usize> {
 }
 
 fn run_case(case: &WireCase, m: &Material, extra: usize) -> Outcome {
-    crate::tracesub::with_tracing(case.tracing, || run_case_inner(case, m, extra))
-}
-
-fn run_case_inner(case: &WireCase, m: &Material, extra: usize) -> Outcome {
     drive(&DriveInput {
         stream: &m.stream,
         barrier: m.barrier,
@@ -631,8 +624,6 @@ impl Check for C03 {
         known: &KnownFindings,
     ) {
         let mut rng = Rng::new(mix(seed, "C03", index));
-        // half of the run indexes drive the connection with TRACE logging switched on
-        let tracing_on = rng.chance(1, 2);
         let class = gen::gen_class_with_huge(&mut rng);
         let greeting = if rng.chance(1, 8) {
             gen::valid_greeting(&gen::gen_version(&mut rng))
@@ -709,7 +700,6 @@ impl Check for C03 {
                         vec![0]
                     },
                     flavour: fl,
-                    tracing: tracing_on,
                     error_at: None,
                 };
                 ctx.about_to_eval(&case);
@@ -1007,8 +997,6 @@ impl Check for C10 {
         known: &KnownFindings,
     ) {
         let mut rng = Rng::new(mix(seed, "C10", index));
-        // half of the run indexes drive the connection with TRACE logging switched on
-        let tracing_on = rng.chance(1, 2);
         // quick: small streams, every cut; thorough: also large streams with sub-sampled cuts
         let class = match tier {
             Tier::Quick => *rng.pick_weighted(&[
@@ -1093,7 +1081,6 @@ impl Check for C10 {
                             vec![0]
                         },
                         flavour: fl,
-                        tracing: tracing_on,
                     error_at: None,
                     };
                     ctx.about_to_eval(&case);
@@ -1121,7 +1108,6 @@ impl Check for C10 {
                     seg_name: name.clone(),
                     pending: if fl == Flavour::Async { pending.clone() } else { vec![0] },
                     flavour: fl,
-                    tracing: tracing_on,
                     error_at: None,
                 };
                 // how many reads does the undisturbed run take?
@@ -1305,8 +1291,6 @@ impl Check for C02 {
         known: &KnownFindings,
     ) {
         let mut rng = Rng::new(mix(seed, "C02", index));
-        // half of the run indexes drive the connection with TRACE logging switched on
-        let tracing_on = rng.chance(1, 2);
         let class = gen::gen_class_with_huge(&mut rng);
         let greeting = gen::default_greeting();
         // stream kinds: well-formed, truncated, corrupted, raw soup
@@ -1363,7 +1347,6 @@ impl Check for C02 {
             seg_name: "whole".into(),
             pending: vec![0],
             flavour: Flavour::Blocking,
-            tracing: tracing_on,
                     error_at: None,
         };
         ctx.about_to_eval(&base);
@@ -1624,8 +1607,6 @@ impl Check for C09 {
         known: &KnownFindings,
     ) {
         let mut rng = Rng::new(mix(seed, "C09", index));
-        // half of the run indexes drive the connection with TRACE logging switched on
-        let tracing_on = rng.chance(1, 2);
         let greeting = gen::default_greeting();
         let corpus = gen::edge_corpus();
         let mut sweep_all_offsets: Option<(Vec<AbsResp>, usize)> = None;
@@ -1721,7 +1702,6 @@ impl Check for C09 {
                 seg_name: "whole".into(),
                 pending: vec![0],
                 flavour: Flavour::Blocking,
-                tracing: false,
                 error_at: None,
             };
             let m = probe.materialize();
@@ -1745,7 +1725,6 @@ impl Check for C09 {
                             vec![0]
                         },
                         flavour: fl,
-                        tracing: tracing_on,
                     error_at: None,
                     };
                     ctx.about_to_eval(&case);
@@ -1945,7 +1924,6 @@ pub fn run_greeting_index<C: Clone + serde::Serialize>(
     known: &KnownFindings,
     wrap: impl Fn(WireCase) -> C,
 ) {
-    let tracing_on = rng.chance(1, 2);
     let (stream, kind) = gen_greeting_stream(rng);
     ctx.counters.bump(&format!("greeting.{}", kind));
     if stream.len() > 4096 {
@@ -1998,7 +1976,6 @@ pub fn run_greeting_index<C: Clone + serde::Serialize>(
                     vec![0]
                 },
                 flavour: fl,
-                tracing: tracing_on,
                     error_at: None,
             };
             ctx.about_to_eval(&wrap(case.clone()));
